@@ -72,6 +72,10 @@ class BudgetExceeded(Exception):
     pass
 
 
+class Unspecified(Exception):
+    """the documentation gives no answer for this source text (raised at compile time; the case is discarded)"""
+
+
 class _Fault(Exception):
     def __init__(self, name):
         Exception.__init__(self, name)
@@ -141,7 +145,11 @@ def tokenize(source):
                 while pos < n and source[pos] != "\"":
                     pos += 1
                 if pos >= n:
+                    if "\\" in source[start:pos]:
+                        raise Unspecified("backslash in a string (escape rules are not documented)")
                     raise CompileError("unclosed string")
+                if "\\" in source[start:pos]:
+                    raise Unspecified("backslash in a string (escape rules are not documented)")
                 toks.append(source[start:pos])
                 pos += 1
     return toks
@@ -439,6 +447,7 @@ class Machine(object):
         self.dostack = []           # loop indices of the active do-loops (innermost last)
         self.ready = False
         self.error = "none"
+        self.paused_at_do_body_end = False
 
     def begin(self, inputs=None):
         inputs = inputs or {}
@@ -476,6 +485,8 @@ class Machine(object):
             return "not ready"
         if self.error != "none":
             return self.error
+        if self.paused_at_do_body_end and len(self.tasks) == 1:
+            self.flags.add("call-at-do-body-end")
         self.tasks.append((self._task(self.prog.words[name]), self.depth, len(self.dostack)))
         return self._advance()
 
@@ -554,7 +565,7 @@ class Machine(object):
             raise _Fault("recursion depth exceeded")
         self.depth += 1
 
-    def _segment(self, seq, top=False):
+    def _segment(self, seq, top=False, dobody=False):
         """generator: runs a block (main program, word body, if/loop body) one nesting level deeper"""
         self._enter()
         st = self.stack
@@ -592,7 +603,7 @@ class Machine(object):
                 mark = len(self.dostack)
                 while self.dostack[-1] < stop:
                     self.census.add("exec:do")
-                    yield from self._segment(node[1])
+                    yield from self._segment(node[1], dobody=True)
                     self.tick()
                     if node[2]:
                         self.need(1)
@@ -645,7 +656,15 @@ class Machine(object):
                     # nothing is left to execute: the machine reports is_done right away (no observable difference
                     # other than the flag; see ASSUMPTIONS of checks/c19.py)
                     break
+                self.paused_at_do_body_end = dobody and index == last
+                if index == last:
+                    # a block that ends with 'pause' is left before pausing (its nesting level is free for a Python-side call)
+                    self.depth -= 1
+                    yield "pause"
+                    self.paused_at_do_body_end = False
+                    return
                 yield "pause"
+                self.paused_at_do_body_end = False
             elif op == "put":
                 self.need(1)
                 self.vars[node[1]] = st.pop()
@@ -705,10 +724,10 @@ class Machine(object):
                 if n < 0:
                     # the documentation describes moving *backwards*; a negative count would expose unwritten items
                     self.unspec.add("negative-rewind")
-                    self.crash.add("negative-rewind")
-                    out.extend([self._convert_int(0, self.prog.outputs[node[1]][1])] * min(-n, 1 << 16))
-                else:
-                    del out[len(out) - n:]
+                    self.unspec.add("after-error:stack")
+                    self.flags.add("negative-rewind")
+                    raise _Fault("rewind beyond")
+                del out[len(out) - n:]
             elif op == "odup":
                 self.need(1)
                 n = st.pop()
@@ -768,18 +787,20 @@ class Machine(object):
                 raise _Fault("division by zero")
             self.census.add("exec:div-negative" if (a < 0) != (b < 0) and a % b != 0 else "exec:div")
             if a == -(1 << (bits - 1)) and b == -1:
-                self.crash.add("int-min-divided-by-minus-one")      # idiv traps on x86: the process dies
-            if w != "/" and abs(b) + abs(a % b if True else 0) >= (1 << (bits - 1)):
-                self.ub.add("signed-overflow")                      # the usual (b + a % b) % b formulation overflows here
+                self.flags.add("int-min-divided-by-minus-one")      # quotient not representable: wraps like negate
+            if abs(b) + abs(a % b) >= (1 << (bits - 1)):
+                self.flags.add("mod-near-width")                    # a (b + a % b) % b formulation would overflow here
             del st[-2:]
             q, r = a // b, a % b                                    # Python: floor division, modulo with the divisor's sign
+            qw = wrap(q, bits)
+            self.max_abs = max(self.max_abs, abs(q))
             if w == "/":
-                self.push(self.arith(q))
+                self.push(qw)
             elif w == "mod":
                 self.push(r)
             else:
                 self.push(r)
-                self.push(self.arith(q))
+                self.push(qw)
         elif w == "negate":
             self.need(1)
             st[-1] = self.arith(-st[-1])
@@ -886,14 +907,18 @@ class Machine(object):
                 self.unspec.add("nan-to-bool")
             return x != 0
         if x != x or x in (math.inf, -math.inf):
-            self.unspec.add("float-to-int-out-of-range")
+            self._float_out_of_range()
             return 0
         t = int(x)
         lo, hi = (-(1 << (8 * size - 1)), (1 << (8 * size - 1)) - 1) if kind == "i" else (0, (1 << (8 * size)) - 1)
         if not lo <= t <= hi:
-            self.unspec.add("float-to-int-out-of-range")
+            self._float_out_of_range()
             return self._convert_int(wrap(t, 64), dt)
         return t
+
+    def _float_out_of_range(self):
+        self.unspec.add("float-to-int-out-of-range")
+        self.ub.add("float-to-int-out-of-range")          # undefined in C++ too: any value may follow
 
     def _add_in_dtype(self, prev, val, dt):
         code, size, kind = DTYPES[dt]
@@ -906,11 +931,11 @@ class Machine(object):
 
     def _float_to_stack(self, x):
         if x != x or x in (math.inf, -math.inf):
-            self.unspec.add("float-to-int-out-of-range")
+            self._float_out_of_range()
             return 0
         t = int(x)
         if wrap(t, self.bits) != t:
-            self.unspec.add("float-to-int-out-of-range")
+            self._float_out_of_range()
             return wrap(t, self.bits)
         return t
 
@@ -923,7 +948,9 @@ class Machine(object):
         self.pos[k] = p + nbytes
         return data[p:p + nbytes]
 
-    def _emit(self, value, target, isfloat=False):
+    def _emit(self, value, target, isfloat=False, through_stack_type=False):
+        if not isfloat and (target is None or through_stack_type):
+            self.max_abs = max(self.max_abs, value if value >= 0 else -value - 1)
         if target is None:
             if isfloat:
                 value = self._float_to_stack(value)
@@ -951,7 +978,11 @@ class Machine(object):
             self.unspec.add("after-error:stack") if False else None
             if count < 0:
                 self.unspec.add("negative-repeat-count")
-                self.crash.add("negative-repeat-count")
+                self.unspec.add("after-error:stack")
+                self.unspec.add("after-error:pos")
+                self.flags.add("negative-repeat-count")
+                if kind in ("typed", "nbit"):
+                    raise _Fault("read beyond")
                 count = 0
             if count > (1 << 16):
                 raise BudgetExceeded()
@@ -968,6 +999,7 @@ class Machine(object):
                     elif vk == "b":
                         if chunk[0] > 1:
                             self.unspec.add("bool-byte-not-0-or-1")
+                            self.ub.add("bool-byte-not-0-or-1")          # loading it through a C++ bool is undefined
                         self._emit(1 if chunk[0] else 0, target)
                     else:
                         self._emit(int.from_bytes(chunk, "little", signed=(vk == "i")), target)
@@ -989,7 +1021,7 @@ class Machine(object):
                         value = (result >> 1) ^ -(result & 1)
                         if target is not None and wrap(value, self.bits) != value:
                             self.unspec.add("direct-read-wider-than-machine")
-                        self._emit(value, target)
+                        self._emit(value, target, through_stack_type=True)
                     else:
                         self._emit(result, target)
             else:  # nbit: `count` unsigned integers of `nbits` bits each, least significant bits first; a partly used
@@ -1013,7 +1045,7 @@ class Machine(object):
                     have -= nbits
                     if target is not None and wrap(value, self.bits) != value:
                         self.unspec.add("direct-read-wider-than-machine")
-                    self._emit(value, target)
+                    self._emit(value, target, through_stack_type=True)
         except _Fault:
             if rep:
                 self.unspec.add("after-error:stack")
